@@ -109,6 +109,34 @@ class CtxGen:
         self.func, self.args, self.kwargs = func, args, kwargs
 
 
+class GenV:
+    """A generator object of a repository generator function: its body runs lazily, one step per
+    next(), as a coroutine (own thread, strictly alternating with the consumer)."""
+
+    def __init__(self, func: Any, env: Any):
+        import threading
+
+        self.func, self.env = func, env
+        self.state = "new"  # new | suspended | running | done
+        self.outcome: Any = None  # ("yield", v) | ("done", v) | ("raise", None)
+        self.exc: Any = None
+        self.to_gen = threading.Semaphore(0)
+        self.to_con = threading.Semaphore(0)
+        self.saved_call: list = []
+        self.saved_depth = 0
+        self.saved_guard: list = []
+        self.saved_mod: Any = None
+        self.base: Any = None
+        self.thread: Any = None
+
+
+class LiveIter:
+    """iter() over a live linked list (torch.fx graph.nodes): next() follows the list as it is *now*."""
+
+    def __init__(self, live: Any):
+        self.live, self.cur, self.started, self.done = live, None, False, False
+
+
 class Repeat:
     """itertools.repeat(value) without a count: an endless iterable (usable in zip / map)."""
 
